@@ -767,6 +767,51 @@ def check_iter(res, facts):
     key = b.id + "|chunk()[0], advance(1), None only when drained"
     (res.bad if probs else res.ok)(key, b.loc(), "; ".join(sorted(set(probs))) if probs else "Some(chunk()[0]) + advance(1) iff has_remaining()", **({} if probs else {"nontrivial": True}))
 
+    # every other method IntoIter implements itself (fold, nth, count, for_each, try_fold, ..): bytes it takes out of `inner.chunk()` are consumed -
+    # from a chunk() read, every way to a return passes an `inner.advance(..)` (must-pass-through on the CFG); methods built on `self.next()` only
+    # have no chunk() read and are covered by the clause above
+    from .flow import cfg_of as _cfg
+    for im in facts.impls:
+        if not im["self_ty"].startswith("buf::iter::IntoIter") or im.get("trait") not in ("core::iter::Iterator", "core::iter::DoubleEndedIterator", "core::iter::ExactSizeIterator", "core::iter::FusedIterator"):
+            continue
+        for it in im["items"]:
+            mb = facts.by_did.get(it.get("did"))
+            if mb is None or it["name"] in ("next", "size_hint"):
+                continue
+            bodies = [mb] + [c for c in facts.children.get(mb.did, []) if c.kind == "closure"]
+            for fb in bodies:
+                inner_ = inner if fb is mb else None
+                chunks, advs = [], set()
+                for bi_, t_ in fb.calls():
+                    fn_ = callee(t_)
+                    if fn_ is None or fb.blocks[bi_]["cleanup"]:
+                        continue
+                    if fn_["name"] == "chunk" and "res" in fn_ and fn_["res"] is None:
+                        chunks.append(bi_)
+                    if fn_["name"] in ("advance", "copy_to_slice", "copy_to_bytes") and "res" in fn_ and fn_["res"] is None:
+                        advs.add(bi_)
+                if not chunks:
+                    continue
+                cfg_ = _cfg(fb)
+                key_ = "%s|bytes taken from chunk() are consumed" % mb.id
+                leak = None
+                for c_ in chunks:
+                    seen_, st_ = set(), [c_]
+                    while st_ and leak is None:
+                        x_ = st_.pop()
+                        for y_ in cfg_.succ[x_]:
+                            if y_ in seen_ or y_ in advs:
+                                continue
+                            seen_.add(y_)
+                            if fb.blocks[y_]["term"]["k"] == "return":
+                                leak = (c_, y_)
+                                break
+                            st_.append(y_)
+                if leak:
+                    res.bad(key_, fb.loc(leak[0]), "a path from the chunk() read at bb%d returns (bb%d) without advancing the inner buffer: the bytes were yielded but are still there" % leak)
+                else:
+                    res.ok(key_, fb.loc(), "every way from a chunk() read to a return passes inner.advance(..)", nontrivial=True)
+
     b = find(facts, "<buf::iter::IntoIter<T> as core::iter::Iterator>::size_hint")
     alts = ret_alts(b, facts)
     key = b.id + "|(remaining, Some(remaining))"
